@@ -50,6 +50,18 @@ func (f *Frame) panicSite(cond, kind, desc, pos string) {
 	if !f.dry {
 		c := s.C
 		name := fmt.Sprintf("%s#%s(%s)", c.Key(), kind, desc)
+		if s.trackAlloc {
+			tf := s.topFrame
+			goal := "false"
+			text := "(no allocates_on_panic clause)"
+			if c.AllocPanic != nil {
+				bound := tf.evalExprView(*c.AllocPanic, s.plainView(tf.entryHeap), s.plainView(tf.entryHeap), nil).(S).T
+				goal = app("<=", app("-", s.hget(f.cur.heap, "$bytes", "Int"), "bytes0"), bound)
+				text = c.AllocPanic.Text
+			}
+			s.addObl(&Obligation{Name: fmt.Sprintf("%s#alloc-panic(%s %s)", c.Key(), kind, desc), Kind: "alloc", Guard: f.cur.reach, Goal: implies(cond, goal), Pos: pos,
+				Clause: "ghost allocation counter at this panic point grew by at most: " + text})
+		}
 		switch {
 		case c.MayPanic:
 		case len(c.PanicsOnlyIf) > 0:
@@ -94,6 +106,9 @@ func (f *Frame) instr(ins ssa.Instruction) {
 		f.s.freshRefs[ref] = true
 		elem := x.Type().Underlying().(*types.Pointer).Elem()
 		f.initObject(ref, elem)
+		if x.Heap {
+			f.chargeBytes(num(sizeOf(elem)))
+		}
 		if nt, ok := elem.(*types.Named); ok && !f.dry {
 			if _, has := f.s.P.Contracts.Types[nt.Obj().Pkg().Name()+"."+nt.Obj().Name()]; has {
 				f.s.newObjs = append(f.s.newObjs, newObj{f.s.curBlk, ref, x.Type(), nt.Obj().Name(), f.pos(x), f.cur.reach})
@@ -162,6 +177,11 @@ func (f *Frame) instr(ins ssa.Instruction) {
 		f.vals[x] = S{f.term(x.X), x.Type()}
 	case *ssa.MakeInterface:
 		f.vals[x] = f.makeInterface(f.val(x.X), x.X.Type(), x.Type())
+		if _, isPtr := x.X.Type().Underlying().(*types.Pointer); !isPtr {
+			if _, isIface := x.X.Type().Underlying().(*types.Interface); !isIface {
+				f.chargeBytes("16")
+			}
+		}
 	case *ssa.TypeAssert:
 		f.typeAssert(x)
 	case *ssa.Extract:
